@@ -216,3 +216,36 @@ Definition deliveries (ev : list event) : list attrs :=
 (* (handler that ran, replies the router sent) *)
 Definition route_pkt (t : table) (pend : list str) (p : pkt) : option nat * list reply :=
   let ev := fst (do_route t pend p) in (hd_error (handler_log ev), replies ev).
+
+(* ---- histories: the route table grows while the router is in use ---- *)
+(* Routes are registered after dispatching has begun: [HAdd r] from outside a dispatch (another
+   goroutine, between two packets or while a handler is still running), [HDispatch p ins] a packet
+   whose handler - the one of the first accepting route, when there is one - itself registers the
+   routes [ins] (re-entrant NewRoute / HandleFunc).  The table is a value: a packet is dispatched on
+   the table as it is when its dispatch begins, a route registered during packet k is at the end of
+   the table packet k+1 sees.  No pending requests here (route_ordinary). *)
+Inductive hop :=
+| HAdd (r : route)
+| HDispatch (p : pkt) (ins : table).
+
+Definition after_dispatch (t : table) (p : pkt) (ins : table) : table :=
+  match router_match t p with Some _ => t ++ ins | None => t end.
+
+(* the events of every dispatch, in order *)
+Fixpoint run_hist (t : table) (h : list hop) : list (list event) :=
+  match h with
+  | [] => []
+  | HAdd r :: h' => run_hist (t ++ [r]) h'
+  | HDispatch p ins :: h' => route_ordinary t p :: run_hist (after_dispatch t p ins) h'
+  end.
+
+(* the table each dispatch of the history is made on, with its packet *)
+Fixpoint dispatches (t : table) (h : list hop) : list (table * pkt) :=
+  match h with
+  | [] => []
+  | HAdd r :: h' => dispatches (t ++ [r]) h'
+  | HDispatch p ins :: h' => (t, p) :: dispatches (after_dispatch t p ins) h'
+  end.
+
+Definition hist_packets (h : list hop) : list pkt :=
+  flat_map (fun o => match o with HDispatch p _ => [p] | HAdd _ => [] end) h.
